@@ -94,6 +94,8 @@ def check(ctx):
         vals = list(range(256)) if w == 1 else boundary(w) + [rng.getrandbits(8 * w) for _ in range(100)]
         for v in vals:
             lines.append("Dpr %s %s" % (fn, fmt(le(v, w))))
+            if rng.random() < 0.2:     # the same print with a debug sink that itself prints numbers after every character it receives
+                lines.append("Dprn %s %s" % (fn, fmt(le(v, w))))
     script = []
     for i, ln in enumerate(lines):
         if i % 500 == 0: script.append("R")
@@ -120,7 +122,7 @@ def replay(ctx, path):
         return core.replay_fault(ctx, d, drv, "NumTextTrace", path)
     if e["e"] == "Toa": ln = "Toa %s %s %d" % (e["fn"], fmt(e["val"]), e["base"])
     elif e["e"] == "Ato": ln = "Ato %s %s %d" % (e["fn"], fmt(e["text"]), e["base"])
-    else: ln = "Dpr %s %s" % (e["fn"], fmt(e["val"]))
+    else: ln = "%s %s %s" % ("Dprn" if e.get("nested") else "Dpr", e["fn"], fmt(e["val"]))
     t = ctx.drive(drv, ["R", ln], "replay")
     ctx.report(ctx.judge("NumTextTrace", [t]))
     return ctx.finish(rule="replay of " + path)
